@@ -324,7 +324,10 @@ def run_program(rec, hub, seed_rng, steps, letters="abcd", ill_rate=0.3, props=(
                 # items with other labels - such arrays / models are not over the stock's dimensions
                 l_o = sl[-1]
                 base_o = Ut[l_o]
-                other_o = fd.Dimension(letter=l_o, name=base_o.name, items=(["aggregate"] if rng.random() < 0.5 else [f"other {q}" for q in range(len(base_o.items))]))
+                r_o = rng.random()
+                # ... or the SAME labels in another order (position q then means another label)
+                items_o = ["aggregate"] if r_o < 0.25 else [f"other {q}" for q in range(len(base_o.items))] if r_o < 0.5 or len(base_o.items) < 2 else list(base_o.items)[1:] + [base_o.items[0]]
+                other_o = fd.Dimension(letter=l_o, name=base_o.name, items=items_o)
                 ds_o = fd.DimensionSet(dim_list=[other_o if l == l_o else Ut[l] for l in sl])
                 what_o = int(rng.integers(0, 4))
                 if what_o < 3:
